@@ -73,6 +73,8 @@ def translate(workdir):
         res["report"][s[0]] = dict(why=s[1], single=s[2] == "1", ordered=s[3] == "1", why_lock=s[4])
     for n, b in re.findall(r'\(\s*"(\w+)",\s*(true|false)\)', log):
         res["obligations"][n] = (b == "true")
+    # a listed executor that is well locked on this tree (its fix has arrived) is treated like any other
+    res["known"] = [k for k in known if res["report"].get(k, {}).get("why")]
     return res
 
 
@@ -316,6 +318,19 @@ def check_linearizable(phase, ops, q, tr, d, budget, stats):
         keys, cops = meta[cname]
         stats["components_checked"] += 1
         stats["ops_checked"] += len(cops)
+        if verdict == "OK":
+            # non-trivial: overlapped in time with a command of another thread on the same keys
+            srt = sorted(cops, key=lambda o: o.inv)
+            for i, o in enumerate(srt):
+                conc = False
+                for p2 in srt[i + 1:]:
+                    if p2.inv > o.res:
+                        break
+                    if p2.thread != o.thread:
+                        conc = True
+                        stats["nontrivial"].add((tuple(p2.args), p2.reply))
+                if conc:
+                    stats["nontrivial"].add((tuple(o.args), o.reply))
         stats["search_nodes"] += int(re.search(r"nodes=(\d+)", l).group(1))
         if verdict == "OK":
             continue
@@ -613,7 +628,7 @@ def hash_keys(seed, n):
 def new_stats():
     return dict(components_checked=0, components_unchecked=0, components_budget=0, ops_checked=0,
                 ops_unchecked=0, search_nodes=0, lock_events=0, sections=0, sections_matched=0,
-                exists_checked=0, unmodelled=set(), ops_total=0, phases=[], commands=set(), screened={})
+                exists_checked=0, unmodelled=set(), ops_total=0, phases=[], commands=set(), screened={}, nontrivial=set())
 
 
 def run_workload(out, seed, tier, phases, skip, race=False, tcp=False, threads=None, nops=None, timeout=900, focus=None):
